@@ -1,4 +1,4 @@
-(* driver of the C06 oracle (extracted Msi/Invariant.v): judges the snapshots
+(* driver of the C06 oracle (extracted Msi/Invariant.v + Msi/L3Invariant.v): judges the snapshots
    printed by tools/harness/msi.go (commands msi-rig, msi-run).
      msi_oracle snap  <file|-> [start]   one output line per S line: "ok" or the violated clause names
      msi_oracle cases <file|-> [start]   one output line per case (C .. S* .. E):
@@ -35,14 +35,31 @@ let parse_snap (f : string array) =
     | _ -> failwith ("bad tx " ^ w)) (words (get 6)) in
   let lines i = List.map (fun w -> match colon w with
     | [l; d] -> (zi l, parse_data d) | _ -> failwith ("bad line " ^ w)) (words (get i)) in
+  let l3size = int_of_string hd.(2) in
+  (* capacity of L3 in lines: not in the snapshot of the exporter; a fourth header field if the harness
+     prints one, else the environment (lib/vf/c06.py reads it off proc/mvp8-0/cpu.go), else 4 KB / line size *)
+  let l3cap =
+    if l3size = 0 then 0
+    else if Array.length hd > 3 then int_of_string hd.(3)
+    else match Sys.getenv_opt "MSI_L3CAP" with
+      | Some v when v <> "" -> int_of_string v
+      | _ -> 4096 / l3size in
   { sn_cores = nat_of_int cores; sn_l1size = zi hd.(1); sn_l3size = zi hd.(2);
     sn_states = states; sn_l1 = l1; sn_sems = sems; sn_cmds = cmds; sn_tx = tx;
-    sn_l3 = lines 7; sn_l3dirty = List.map zi (words (let x = get 8 in if x = "-" then "" else x)); sn_mem = lines 10 }
+    sn_l3 = lines 7; sn_l3dirty = List.map zi (words (let x = get 8 in if x = "-" then "" else x)); sn_mem = lines 10;
+    sn_l3cap = z_of_int l3cap;
+    sn_ref = (let x = get 11 in if x = "-" || x = "" then [] else lines 11) }
 let name_of = function
   | C1_single_writer -> "C1_single_writer" | C2_shared_clean -> "C2_shared_clean"
   | C3_l1_iff_valid -> "C3_l1_iff_valid" | C4_l1_wellformed -> "C4_l1_wellformed"
   | C5_lock_counters -> "C5_lock_counters" | S_command_matches_state -> "S_command_matches_state"
   | S_counters_match_transactions -> "S_counters_match_transactions" | S_wellformed -> "S_wellformed"
+let name3_of = function
+  | L3_wellformed -> "L3_wellformed" | L3_within_capacity -> "L3_within_capacity"
+  | L3_clean_matches_memory -> "L3_clean_matches_memory"
+  | D_current_value_is_last_write -> "D_current_value_is_last_write"
+(* clauses 1-5 + supporting conjuncts (Msi/Invariant.v), then the L3 / data-value clauses (Msi/L3Invariant.v) *)
+let all_violated s = List.map name_of (violated s) @ List.map name3_of (violated3 s)
 let rec int_of_nat = function O -> 0 | S n -> 1 + int_of_nat n
 let mark_str = function
   | FM_filled (i, k) -> Printf.sprintf "filled:%d:%s" (int_of_nat i) (zs k)
@@ -50,6 +67,7 @@ let mark_str = function
   | FM_own_read (i, k) -> Printf.sprintf "own_read:%d:%s" (int_of_nat i) (zs k)
   | FM_l3_double_victim k -> Printf.sprintf "l3_double_victim:-:%s" (zs k)
   | FM_l3_stale k -> Printf.sprintf "l3_stale:-:%s" (zs k)
+  | FM_l3_evict_dirty k -> Printf.sprintf "l3_evict_dirty:-:%s" (zs k)
   | FM_orphan_cmd (i, k) -> Printf.sprintf "orphan_cmd:%d:%s" (int_of_nat i) (zs k)
 let with_input file f =
   if file = "-" then f stdin else begin let ic = open_in file in f ic; close_in ic end
@@ -58,9 +76,9 @@ let snap_mode file =
   with_input file (fun ic -> each_line ic (fun line ->
     if String.length line > 1 && line.[0] = 'S' && line.[1] = ' ' then begin
       let s = parse_snap (fields line) in
-      match violated s with
+      match all_violated s with
       | [] -> print_endline "ok"
-      | l -> print_endline (String.concat " " (List.map name_of l))
+      | l -> print_endline (String.concat " " l)
     end))
 let cases_mode file =
   let hdr = ref "" and snaps = ref 0 and cycles = ref 0 and nviol = ref 0 in
@@ -76,10 +94,10 @@ let cases_mode file =
           let cyc = h.(1) and mult = int_of_string h.(2) in
           let s = parse_snap f in
           incr snaps; cycles := !cycles + mult;
-          (match violated s with
+          (match all_violated s with
            | [] -> ()
            | l -> nviol := !nviol + mult;
-                  List.iter (fun c -> let n = name_of c in
+                  List.iter (fun n ->
                     if not (List.exists (fun (m, _) -> m = n) !viol) then viol := (n, cyc) :: !viol) l);
           (match !prev with
            | Some p -> List.iter (fun m -> let t = mark_str m in
